@@ -627,6 +627,16 @@ func (c *SpecCtx) ssaName(name string) (TV, bool) {
 			return get(p, true)
 		}
 	}
+	// named results and other address-taken locals: their storage is allocated in the entry block
+	if len(c.e.fn.Blocks) > 0 {
+		for _, in := range c.e.fn.Blocks[0].Instrs {
+			if a, ok := in.(*ssa.Alloc); ok && a.Comment == name {
+				if _, known := c.e.vals[a]; known {
+					return get(a, true)
+				}
+			}
+		}
+	}
 	return TV{}, false
 }
 
